@@ -4,3 +4,4 @@ pub mod gen;
 pub mod numtext;
 pub mod report;
 pub mod fmodel;
+pub mod refparse;
